@@ -152,16 +152,22 @@ func (tps *TPS) KeyGen(ctx context.Context) ([]byte, error) {
 
 	// We then distribute the polynomial evaluations (shares) to all parties.
 	// Each party 'i' gets P(i).
-	tps.shareDistribution(ctx, xShares, yShares)
+	if err := tps.shareDistribution(ctx, xShares, yShares); err != nil {
+		return nil, fmt.Errorf("did not receive the shares of all parties: %w", err)
+	}
 
 	// Having received all shares, we combine all shares received from all parties by adding them.
 	pk := tps.combineShares()
 	pkBytes := pk.Bytes()
 
-	tps.commitPhase(ctx, pkBytes)
+	if err := tps.commitPhase(ctx, pkBytes); err != nil {
+		return nil, fmt.Errorf("did not receive the commitments of all parties: %w", err)
+	}
 
 	// Now we de-commit, and wait for everyone else to de-commit thus revealing their public key.
-	tps.revealPhase(ctx, pkBytes)
+	if err := tps.revealPhase(ctx, pkBytes); err != nil {
+		return nil, fmt.Errorf("did not receive the public keys of all parties: %w", err)
+	}
 	// Next, we ensure the commitments we received match the de-commitments
 	if err := tps.validateCommitments(); err != nil {
 		return nil, err
@@ -367,7 +373,7 @@ func localAggregateECPoints(points []*math.G2, evaluationPoints ...int64) *math.
 	return sum
 }
 
-func (tps *TPS) commitPhase(ctx context.Context, pk []byte) {
+func (tps *TPS) commitPhase(ctx context.Context, pk []byte) error {
 	digest := sha256.Sum256(pk)
 	commitment := digest[:]
 
@@ -375,14 +381,14 @@ func (tps *TPS) commitPhase(ctx context.Context, pk []byte) {
 
 	tps.sendMsg(encodeMsg(commitPK, commitment), true, 0)
 
-	tps.waitForCommitmentDistribution(ctx)
+	return tps.waitForCommitmentDistribution(ctx)
 }
 
-func (tps *TPS) revealPhase(ctx context.Context, pk []byte) {
+func (tps *TPS) revealPhase(ctx context.Context, pk []byte) error {
 	tps.Logger.Infof("Broadcasting public key: %s", base64.StdEncoding.EncodeToString(pk))
 	tps.sendMsg(encodeMsg(revealPK, pk), true, 0)
 
-	tps.waitForDeCommitmentDistribution(ctx)
+	return tps.waitForDeCommitmentDistribution(ctx)
 }
 
 func secretShare(n, t int) Shares {
@@ -390,30 +396,34 @@ func secretShare(n, t int) Shares {
 	return shares
 }
 
-func (tps *TPS) waitForCommitmentDistribution(ctx context.Context) {
+func (tps *TPS) waitForCommitmentDistribution(ctx context.Context) error {
 	tps.lock.Lock()
 	defer tps.lock.Unlock()
 
-	for !tps.contextTimedOut(ctx) {
-		if len(tps.commitments) == len(tps.parties)-1 {
-			return
+	for len(tps.commitments) != len(tps.parties)-1 {
+		if tps.contextTimedOut(ctx) {
+			return ctx.Err()
 		}
 
 		tps.signal.Wait()
 	}
+
+	return nil
 }
 
-func (tps *TPS) waitForDeCommitmentDistribution(ctx context.Context) {
+func (tps *TPS) waitForDeCommitmentDistribution(ctx context.Context) error {
 	tps.lock.Lock()
 	defer tps.lock.Unlock()
 
-	for !tps.contextTimedOut(ctx) {
-		if len(tps.publicKeysOfParties) == len(tps.parties) {
-			return
+	for len(tps.publicKeysOfParties) != len(tps.parties) {
+		if tps.contextTimedOut(ctx) {
+			return ctx.Err()
 		}
 
 		tps.signal.Wait()
 	}
+
+	return nil
 }
 
 func (tps *TPS) combineShares() PK {
@@ -443,7 +453,7 @@ func (tps *TPS) combineShares() PK {
 	return pk
 }
 
-func (tps *TPS) shareDistribution(ctx context.Context, xShares Shares, yShares []Shares) {
+func (tps *TPS) shareDistribution(ctx context.Context, xShares Shares, yShares []Shares) error {
 	tps.sk = SK{
 		ys: make([]*math.Zr, tps.pp.n),
 		x:  xShares[tps.id-1],
@@ -461,20 +471,22 @@ func (tps *TPS) shareDistribution(ctx context.Context, xShares Shares, yShares [
 		tps.sendMsg(encodeMsg(shareDistribution, marshalShare(xShares[i], yShares, i+1, tps.pp.n)), false, tps.parties[i])
 	}
 
-	tps.waitForShareDistribution(ctx)
+	return tps.waitForShareDistribution(ctx)
 }
 
-func (tps *TPS) waitForShareDistribution(ctx context.Context) {
+func (tps *TPS) waitForShareDistribution(ctx context.Context) error {
 	tps.lock.Lock()
 	defer tps.lock.Unlock()
 
-	for !tps.contextTimedOut(ctx) {
-		if tps.sharesProcessed == len(tps.parties)-1 {
-			return
+	for tps.sharesProcessed != len(tps.parties)-1 {
+		if tps.contextTimedOut(ctx) {
+			return ctx.Err()
 		}
 
 		tps.signal.Wait()
 	}
+
+	return nil
 }
 
 func (tps *TPS) contextTimedOut(ctx context.Context) bool {
